@@ -59,8 +59,10 @@ func checkC19(c *Ctx, r *Report) {
 	c19R4(c, r)
 }
 
-func c19R1(c *Ctx, r *Report) {
-	r.Rule("C19-R1", "typed forbidden-call", "no plain JSON decode into Body / map[string]any / []any / any outside the listed non-document sites", 10)
+func c19R1(c *Ctx, r *Report) { c19R1For(c, r, "C19-R1") }
+
+func c19R1For(c *Ctx, r *Report, rule string) {
+	r.Rule(rule, "typed forbidden-call", "no plain JSON decode into Body / map[string]any / []any / any outside the listed non-document sites", 10)
 	used := map[string]bool{}
 	n := 0
 	for _, fn := range c.ScopeFuncs() {
@@ -81,7 +83,7 @@ func c19R1(c *Ctx, r *Report) {
 			reason, ok := c19LooseOK[top]
 			used[top] = true
 			dt := strings.ReplaceAll(dst.Type().String(), modPath+"/", "")
-			r.Check("C19-R1", fmt.Sprintf("fn=%s plain-decode-into=%s", top, dt), c.Pos(call.Pos()), ok, "listed non-document decode: "+reason,
+			r.Check(rule, fmt.Sprintf("fn=%s plain-decode-into=%s", top, dt), c.Pos(call.Pos()), ok, "listed non-document decode: "+reason,
 				"JSON is decoded into an untyped container with the plain decoder: integers above 2^53 in a document body would be rounded to float64 (use Body.Unmarshal / a decoder with UseNumber)")
 		}
 		// decoders: Decode into loose dest requires UseNumber on the same decoder
@@ -112,17 +114,17 @@ func c19R1(c *Ctx, r *Report) {
 				ui = append(ui, u)
 			}
 			ok := len(ui) > 0 && DominatedBy(fn, call, NewAvoid().AddInstr(ui...))
-			r.Check("C19-R1", fmt.Sprintf("fn=%s decoder-into-Body uses=UseNumber", c.FuncName(fn)), c.Pos(call.Pos()), ok, "UseNumber() precedes Decode", "a document body is decoded without UseNumber: large integers would be rounded")
+			r.Check(rule, fmt.Sprintf("fn=%s decoder-into-Body uses=UseNumber", c.FuncName(fn)), c.Pos(call.Pos()), ok, "UseNumber() precedes Decode", "a document body is decoded without UseNumber: large integers would be rounded")
 		}
 	}
-	r.Examined("C19-R1", n)
+	r.Examined(rule, n)
 	// Body.Unmarshal itself must be number preserving
 	if fn := c.Func("(*db.Body).Unmarshal"); fn == nil {
-		r.Fail("C19-R1", "anchor (*db.Body).Unmarshal", "-", "function not found")
+		r.Fail(rule, "anchor (*db.Body).Unmarshal", "-", "function not found")
 	} else {
 		un := len(c.Calls(fn, true, func(nm string) bool { return strings.HasSuffix(nm, ".UseNumber") }))
 		plain := len(c.Calls(fn, true, nameIs("base.JSONUnmarshal", "encoding/json.Unmarshal")))
-		r.Check("C19-R1", "fn=(*db.Body).Unmarshal number-preserving", c.Pos(fn.Pos()), un > 0 && plain == 0, "decodes with UseNumber", "the body decoder no longer preserves numbers")
+		r.Check(rule, "fn=(*db.Body).Unmarshal number-preserving", c.Pos(fn.Pos()), un > 0 && plain == 0, "decodes with UseNumber", "the body decoder no longer preserves numbers")
 	}
 }
 
